@@ -892,4 +892,72 @@ example :
     dirTotal (fun _ => true) rep = 3 ∧ dirTotalH (fun _ => true) rep = 2 ∧
       listedTotalH (fun _ => true) rep = 2 := by decide
 
+/-! ### a `..` behind a symbolic link: the reported path is lexical, the absolute path physical -/
+
+/-- `/c/bar.c`, `/s/bar.c`, the directory `/s/d`, the link `/c/lnk -> /s/d`; cwd `/c` -/
+def dotdotFS : FS :=
+  { files := [[[99], [98, 97, 114, 46, 99]], [[115], [98, 97, 114, 46, 99]]],
+    dirs := [[[99]], [[115]], [[115], [100]]], cwd := [[99]],
+    links := [([[99], [108, 110, 107]], [47, 115, 47, 100])] }
+
+/-- No source dir, keys `bar.c` and `lnk/../bar.c`. `canonicalize` walks the second physically:
+`lnk` is `/s/d`, its parent is `/s`, the file is `/s/bar.c`. The reported path is the key's LEXICAL
+normal form (`normalize_path` drops `lnk/..`): `bar.c` — the name of `/c/bar.c`, a different file,
+which the first key reports under the same path. -/
+theorem C12_dotdot_behind_link_witness :
+    addThenRewrite {} dotdotFS
+        [([98, 97, 114, 46, 99], { lines := [(1, 1)] }),
+         ([108, 110, 107, 47, 46, 46, 47, 98, 97, 114, 46, 99], { lines := [(1, 2)] })]
+      = .ok [⟨[47, 99, 47, 98, 97, 114, 46, 99], [98, 97, 114, 46, 99], { lines := [(1, 1)] }⟩,
+             ⟨[47, 115, 47, 98, 97, 114, 46, 99], [98, 97, 114, 46, 99], { lines := [(1, 2)] }⟩] := by
+  decide +kernel
+
+/-- Full statement (no source dir, prefix or mapping): the reported path of a record, read from the
+current directory, denotes the record's file. -/
+def C12_reported_path_names_the_file_stmt : Prop :=
+  ∀ (cfg : Cfg) (fs : FS) (kc : Bytes × Cov) (r : Rec),
+    cfg.sourceDir = none → cfg.prefixDir = none → cfg.mapping = none →
+    rewriteKey cfg fs kc = .ok (some r) → ∀ p, fs.realpath r.abs = some p → fs.realpath r.rel = some p
+
+/-- FALSE: the record of `lnk/../bar.c` is (`/s/bar.c`, `bar.c`), and `bar.c` is `/c/bar.c`
+(finding C12-dotdot-behind-link-resolved-lexically). -/
+theorem C12_reported_path_names_the_file_false : ¬ C12_reported_path_names_the_file_stmt := by
+  intro h
+  have := h {} dotdotFS ([108, 110, 107, 47, 46, 46, 47, 98, 97, 114, 46, 99], { lines := [(1, 2)] })
+    ⟨[47, 115, 47, 98, 97, 114, 46, 99], [98, 97, 114, 46, 99], { lines := [(1, 2)] }⟩ rfl rfl rfl
+    (by decide +kernel) [47, 115, 47, 98, 97, 114, 46, 99] (by decide +kernel)
+  revert this
+  decide +kernel
+
+/-- It holds for a key without `..` (the guard the witness violates; here: an absolute path in
+normal form, no backslash): the record is (`realpath key`, `key`) — the absolute path IS the
+physical file of the reported path, through whatever links. -/
+theorem C12_reported_path_names_the_file_partial (cfg : Cfg) (fs : FS) (names : List Bytes) (cov : Cov)
+    (r : Rec) (p : Bytes) (hS : cfg.sourceDir = none) (hP : cfg.prefixDir = none)
+    (hM : cfg.mapping = none) (hn : ∀ n ∈ names, RealName n ∧ 92 ∉ n)
+    (h : rewriteKey cfg fs (render ⟨true, names⟩, cov) = .ok (some r))
+    (hp : fs.realpath (render ⟨true, names⟩) = some p) :
+    r.rel = render ⟨true, names⟩ ∧ r.abs = p := by
+  have hreal : ∀ n ∈ (⟨true, names⟩ : NPath).names, RealName n := fun n h' => (hn n h').1
+  have hbs : ∀ n ∈ (⟨true, names⟩ : NPath).names, 92 ∉ n := fun n h' => (hn n h').2
+  refine ⟨rewriteKey_rel_of_normal_key hS hP hM hreal hbs h, ?_⟩
+  obtain ⟨a, rl, hres, hsel⟩ := (rewriteKey_some_iff _ _ _ _).1 h
+  obtain ⟨_, _, _, _, er⟩ := (selectRec_some_iff _ _ _ _ _ _).1 hsel
+  obtain ⟨r0, hg, _⟩ := resolveKey_some hres
+  have hb : bsl (render ⟨true, names⟩) = render ⟨true, names⟩ := bsl_id (noBackslash_render hbs)
+  simp only [keyPath_plain hP hM, hb, hS] at hg
+  obtain ⟨ac, hac, hna, _⟩ := (getAbsPath_some_iff _ _ _ _ _).1 hg
+  have hac' : ac = p := by
+    simp [absCanon, absGuess, isRelative, hasRoot_render_true, canonOrNorm, hp] at hac
+    exact hac.symm
+  subst hac'
+  obtain ⟨ns, hns, e⟩ := realpath_clean_of_abs (hasRoot_render_true names) hp
+  rw [e, normalizePath_render (np := ⟨true, ns⟩) hns] at hna
+  rw [er]; simp only; rw [e]; exact (Option.some.inj hna).symm
+
+/-- the guard on the witness tree: the clean key `/c/lnk/bar.c`… does not exist, `/c/bar.c` does and
+is reported as itself -/
+example : rewriteKey {} dotdotFS ([47, 99, 47, 98, 97, 114, 46, 99], {})
+    = .ok (some ⟨[47, 99, 47, 98, 97, 114, 46, 99], [47, 99, 47, 98, 97, 114, 46, 99], {}⟩) := by decide +kernel
+
 end Grcov.Props.C12
